@@ -204,6 +204,7 @@ def link_layer_timers(freq):
     instance's clock parameter and every connection on the way."""
     def contract(c):
         from .c37_header_receive import LinkLayerUnits, lemmas_receive_stream
+        from .c46_ss_in_endpoint import path_of
         U = LinkLayerUnits(c, freq)
         of, S, ts, tm, ltssm, idle = U.of, U.S, U.ts, U.tm, U.ltssm, U.idle
         enable = B(of(ltssm.link_ready))
@@ -211,7 +212,7 @@ def link_layer_timers(freq):
         rx = z3.Or(B(of(U.det.new_command)), B(of(U.raw.new_packet)))
         keepalive = B(of(U.hrx.keepalive_required))
         recovery = B(of(tm.transition_to_recovery))
-        timer_clauses(c, freq, enable, tx, rx, keepalive, recovery, ts.sig("timers.keepalive_timer"), ts.sig("timers.recovery_timer"), None, False)
+        timer_clauses(c, freq, enable, tx, rx, keepalive, recovery, ts.sig(path_of(ts, tm) + ".keepalive_timer"), ts.sig(path_of(ts, tm) + ".recovery_timer"), None, False)
         c.lemma("timer_inputs_are_the_link_layer_events",
                 z3.And(S(tm.enable, ltssm.link_ready), S(tm.link_command_transmitted, U.gen.source.valid),
                        S(tm.link_command_received, U.det.new_command), S(tm.packet_received, U.raw.new_packet)),
